@@ -377,3 +377,14 @@ def contracts():
     for c in sets:
         c.prop = "C14"
     return _c14_base3() + sets
+
+
+# readonly => constant is established by the constructor (verified for C11)
+_c14_base4 = contracts
+
+
+def contracts():
+    from contracts import c11 as _c11
+    c = _c11.parameter_init_contract()
+    c.prop = "C14"
+    return _c14_base4() + [c]
